@@ -340,20 +340,6 @@ Definition xstep (f : lfield) (o : aop) : lfield := astep f o.
 Definition x_in_range (f : lfield) (o : aop) : bool := aop_in_range f o.
 (* the operands of C11_full: identifier texts, non-empty entries / architecture lists / groups *)
 Definition operands_ok (o : aop) : bool := wf_operands o.
-(* the operands as trees: what the machine builds for [compile o] *)
-Definition btop (o : aop) : option top :=
-  match o with
-  | APush e => Some (TPush (bentry_tree e))
-  | AInsert i e => Some (TInsert i (bentry_tree e))
-  | AReplace i e => Some (TReplace i (bentry_tree e))
-  | AEPush i r => Some (TEPush i (brel_tree r))
-  | AEReplace i j r => Some (TEReplace i j (brel_tree r))
-  | _ => None
-  end.
-(* the tree function of an operation whose operands the builder built *)
-Definition bt_op (o : aop) (T : rtree) : res rtree :=
-  match btop o with Some t => tt_op t T | None => t_op o T end.
-
 (* ------------------------------------------------------------------ every liberal layout is a live layout *)
 Definition lrel_of (r : arel) (last : bool) : lrel :=
   mk_lrel (a_name r)
